@@ -606,6 +606,11 @@ def snapshot(p):
         s["tasks"] = sorted(str(t) for t in p.tasks)
         s["methods"] = sorted(repr(m) for m in p.methods)
         s["tn"] = [repr(st) for st in p.task_network.subtasks] + [str(c) for c in p.task_network.constraints]
+        # what a subtask RUNS is part of the problem: an action reached through a subtask must be the problem's own
+        s["tn_tasks"] = [snap_action(st.task) if isinstance(st.task, (InstantaneousAction, DurativeAction)) else st.task.name
+                         for st in p.task_network.subtasks]
+        s["method_tasks"] = sorted((m.name, [snap_action(st.task) if isinstance(st.task, (InstantaneousAction, DurativeAction))
+                                             else st.task.name for st in m.subtasks]) for m in p.methods)
     if isinstance(p, ContingentProblem):
         s["or"] = [[str(f) for f in c] for c in p.or_constraints]
         s["oneof"] = [[str(f) for f in c] for c in p.oneof_constraints]
